@@ -169,6 +169,11 @@ def make_case(rng):
         else:
             ref = rng.choice(["Z", "a", "", "AB"]) if faulty else rng.choice(labels)
         case.update({"labels": labels, "ref": ref, "op": rng.choice(["get_species_index", "get_state", "set_state"])})
+        if faulty and rng.random() < 0.3:
+            # a species that WAS known: every label is looked up once, then the network's species list is replaced by one without it
+            full = ["A", "B", "C", "E"]
+            gone = rng.choice(full[:-1])
+            case.update({"labels": [l for l in full if l != gone], "ref": gone, "removed_from": full})
     elif cls == "cg_map":
         from . import c16
         cc = c16.make_case(rng, "quick")
@@ -265,12 +270,20 @@ def observe(case):
             labels = ["A", "B"]
         else:
             space = strengths.RDGridSpace(w=2, h=2)
-            labels = case["labels"]
+            labels = case.get("removed_from") or case["labels"]
         net = strengths.RDNetwork(species=[strengths.Species(l) for l in labels], reactions=[])
         n = space.size()
         state = U.UnitArray([float(10 + k) for k in range(n * len(labels))], "molecule")
         system = strengths.RDSystem(network=net, space=space, state=state, chemostats=[k % 2 for k in range(n * len(labels))])
         snap = lambda: ([float(v) for v in system.state.value], [int(v) for v in system.chemostats])
+        if case.get("removed_from"):
+            for l in labels:
+                system.get_state(l, 0)
+                system.network.get_species_index(l)
+                net.get_species_index(l)
+            keep = [sp_ for sp_ in system.network.species if sp_.label in case["labels"]]
+            system.network.species = keep
+            net.species = [sp_ for sp_ in net.species if sp_.label in case["labels"]]
         pos = tuple(case["pos"]) if isinstance(case.get("pos"), list) else case.get("pos", 0)
         sp_ref = case.get("ref", "A")
         op = case["op"]
